@@ -15,7 +15,7 @@ import (
 // heapIdx: aN·N + aH·⌊N/2⌋ + c, N the heap length.
 type heapIdx struct {
 	aN, aH, c int64
-	ok       bool
+	ok        bool
 }
 
 func (h heapIdx) String() string { return fmt.Sprintf("%d·n + %d·(n/2) + %d", h.aN, h.aH, h.c) }
